@@ -18,3 +18,16 @@ Proof.
   exists ws. split; [exact Es|]. split; [symmetry; exact Hm|].
   rewrite b64_encode_size_matches_source by exact Hb. rewrite b64_encode_size_spec, Hm. rewrite map_length. reflexivity.
 Qed.
+
+(* the same for the hex encoder: what _ST_PRIVATE::hex_encode of the current headers stores is the lower-case hex string
+   hex_spec, two characters per byte — the 2 * size characters ST::hex_encode allocates *)
+Theorem hex_encode_source_is_spec l fuel : bytes_ok l = true -> (length l < fuel)%nat -> Z.of_nat (length l) < 2 ^ 62 ->
+  exists ws, src_hex_encode fuel (arrb l) (Z.of_nat (length l)) = Some ws /\ map Z.to_N ws = hex_spec l /\
+             length ws = (2 * length l)%nat.
+Proof.
+  intros A Hf Hb.
+  destruct (hex_encode_matches_source l fuel A Hf ltac:(lia)) as (ws & Es & Em).
+  rewrite (hex_encode_raw_spec l A) in Em. inversion Em as [Hm].
+  exists ws. split; [exact Es|]. split; [symmetry; exact Hm|].
+  rewrite <- (map_length Z.to_N ws), <- Hm. apply ProofsSpec.hex_length.
+Qed.
